@@ -178,6 +178,18 @@ func execMusig(op string, a []string) string {
 		return hx(out[:])
 	case op == "musig" && len(a) == 4:
 		return session(a[0] == "1", msg32(unhex(a[1])), parseTweakOpt(a[2]), a[3])
+	case op == "msign" && len(a) == 7:
+		priv := privFrom(a[0])
+		n, err := musig2.GenNonces(musig2.WithCustomRand(bytes.NewReader(unhex(a[1]))), musig2.WithPublicKey(priv.PubKey()))
+		if err != nil {
+			return "err"
+		}
+		ps, err := musig2.Sign(n.SecNonce, priv, nonce66(unhex(a[2])), parseKeys(a[3]), msg32(unhex(a[4])),
+			parseTweakOpt(a[6]).sign(a[5] == "1")...)
+		if err != nil {
+			return "err"
+		}
+		return fmt.Sprintf("s=%s r=%x", scalarHex(ps.S), ps.R.SerializeCompressed())
 	case op == "ctx" && len(a) == 4:
 		return ctxSession(a[0] == "1", msg32(unhex(a[1])), parseTweakOpt(a[2]), a[3])
 	case op == "pverify" && len(a) == 8:
@@ -581,6 +593,31 @@ func genMusig(g *core.Gen) {
 				tws = "-"
 			}
 			class = "other-tweaks"
+		}
+		// Sign on its own against an arbitrary (possibly adversarial) aggregate nonce
+		{
+			an2 := append([]byte{}, aggN[:]...)
+			cls := "agg"
+			switch r.Intn(6) {
+			case 0:
+				an2 = make([]byte, 66) // both halves infinite: R is replaced by G
+				cls = "inf-inf"
+			case 1:
+				for z := 0; z < 33; z++ {
+					an2[z] = 0
+				}
+				cls = "inf-first"
+			case 2:
+				for z := 33; z < 66; z++ {
+					an2[z] = 0
+				}
+				cls = "inf-second"
+			case 3:
+				copy(an2[1:33], r.Bytes(32))
+				cls = "random-x"
+			}
+			rnd := r.Bytes(32)
+			g.Case("msign:"+cls, true, fmt.Sprintf("C11 msign %x %x %x %s %x %s %s", b32(ds[who]), rnd, an2, keyList, msg[:], sortS, tws))
 		}
 		g.Case("pverify:"+class, true, fmt.Sprintf("C11 pverify %x %x %x %s %x %x %s %s", b32(sv), pn, an, keyList, pk, m, sortS, tws))
 	}
